@@ -1,10 +1,10 @@
 import CnfgenModel.Driver.Util
 import CnfgenModel.Build.Linear
 import CnfgenModel.Build.OPB
-namespace Cnfgen.Driver
-open Cnfgen
+namespace Cnfgen.Driver.L1
+open Cnfgen Cnfgen.Driver
 
-def l1 (opname : String) (a : Args) : Option String :=
+def handle (opname : String) (a : Args) : Option String :=
   match opname with
   | "lin" => run (do let o ← op; let k ← int; let ls ← ints; pure (ok (fmtClauses (Linear.add ls o k)))) a
   | "parity" => run (do let k ← int; let ls ← ints; pure (ok (fmtClauses (Linear.parity ls k)))) a
@@ -25,4 +25,4 @@ def l1 (opname : String) (a : Args) : Option String :=
   | "normopb" => run (do let o ← op; let k ← int; let ts ← pairs; pure (ok (fmtPBC (PB.normalize ⟨ts, o, k⟩)))) a
   | _ => none
 
-end Cnfgen.Driver
+end Cnfgen.Driver.L1
